@@ -3,7 +3,7 @@
 # (and the extra checks listed in EXTRA) and write seeded/RESULTS.tsv: id, check run, exit code, reporting sub-check, signature.
 # Patches /repo for the duration of each run: nothing else may use /repo meanwhile.
 cd /verif
-declare -A EXTRA=( [C01-m6]=C04 [C06-m6]=C19 [C12-m6]=C15 [C05-m6]=C13 [C04-m6]=C03 [C10-m2]=C06 [C18-m2]=C15 [C03-m2]=C15 [C05-m3]=C13 [C05-m4]=C02 [C06-m8]=C13 [C09-m8]=C01 [C13-m7]=C19 [C15-m7]=C18 [C02-m7]=C19 [C02-m9]=C19 [C05-m10]=C06 )
+declare -A EXTRA=( [C01-m6]=C04 [C06-m6]=C19 [C12-m6]=C15 [C05-m6]=C13 [C04-m6]=C03 [C10-m2]=C06 [C18-m2]=C15 [C03-m2]=C15 [C05-m3]=C13 [C05-m4]=C02 [C06-m8]=C13 [C09-m8]=C01 [C13-m7]=C19 [C15-m7]=C18 [C02-m7]=C19 [C02-m9]=C19 [C05-m10]=C06 [C05-m1]=C13 )
 ids=${@:-$(ls seeded | grep -- '-m')}
 out=seeded/RESULTS.tsv
 [ $# -eq 0 ] && : > $out
